@@ -20,11 +20,28 @@ var Families = map[string][]string{
 	"C13": {"arpspoof"},
 	"C14": {"ndspoof"},
 	"C09": {"conc9"},
+	"C10": {"hosts", "dhcp", "naming"},
 	"C07": {"sends", "hosts", "dhcp", "arpspoof", "ndspoof", "ping"},
 }
 
 // Generate builds the scenario for (property, family, seed).
 func Generate(prop, family string, seed uint64, tier string) Scenario {
+	sc := generate(prop, family, seed, tier)
+	if prop == "C10" {
+		if sc.Extra == nil {
+			sc.Extra = map[string]int{}
+		}
+		sc.Extra["transcript"] = 1
+		sc.Extra["buf"] = 1 // this process: one shared, scribbled buffer; the child: private buffers
+		sc.Cfg.DNS = true
+		if family == "dhcp" {
+			sc.Cfg.LeaseFile = true
+		}
+	}
+	return sc
+}
+
+func generate(prop, family string, seed uint64, tier string) Scenario {
 	switch family {
 	case "hosts":
 		return genHosts(prop, seed, tier)
@@ -42,6 +59,8 @@ func Generate(prop, family string, seed uint64, tier string) Scenario {
 		return genSends(prop, seed, tier)
 	case "conc9":
 		return genConc9(prop, seed, tier)
+	case "naming":
+		return genNaming(prop, seed, tier)
 	}
 	panic("unknown family " + family)
 }
@@ -65,6 +84,15 @@ func Driver(sc Scenario, trace bool) func() {
 			simrt.Result(b)
 		}
 		e.w = w
+		if sc.Extra["transcript"] == 1 {
+			w.SharedBuf = sc.Extra["buf"] == 1
+			w.Scribble = sc.Extra["buf"] == 1
+			w.Tx = func(kind, line string) {
+				if len(e.res.Transcript) < 20000 {
+					e.res.Transcript = append(e.res.Transcript, kind+" "+line)
+				}
+			}
+		}
 		// a malformed frame does not invalidate the rest of the history: keep going
 		w.Violation = func(oracle, key, detail string) { e.violateSoft(oracle, key, detail) }
 		switch sc.Family {
@@ -84,11 +112,16 @@ func Driver(sc Scenario, trace bool) func() {
 			runSends(e)
 		case "conc9":
 			runConc9(e)
+		case "naming":
+			runNaming(e)
 		default:
 			e.violate("infra.setup", "family", fmt.Sprintf("unknown family %q", sc.Family))
 		}
 		// every frame written during the run passes the wire invariant
 		e.res.FramesOut += len(w.PollOut())
+		if sc.Extra["transcript"] == 1 && w.Tx != nil {
+			dumpState(e)
+		}
 		b, _ := json.Marshal(e.finish())
 		simrt.Result(b)
 	}
